@@ -240,7 +240,7 @@ theorem any_stdin_relabel (l : List PBlock) :
 theorem parseTop_rt (cx : PCtx) (hnl : cx.nl = 0) : ∀ (rest seen : List PBlock),
     (∀ b ∈ rest, blockOK cx.rxOk b = true ∧ treePOK b.tree = true ∧ b.paths.all strOK = true) →
     stdinOK seen rest = true →
-    ∀ (fuel : Nat) (s : PState), Up s (rest.flatMap blockToks) →
+    ∀ (fuel : Nat) (s : ParseSt), Up s (rest.flatMap blockToks) →
       wp (parseTop cx fuel (seen.map relabelBlock))
         (fun r s' => r = (seen ++ rest).map relabelBlock ∧ s'.macros = []) NoErr True s := by
   intro rest
@@ -328,7 +328,7 @@ theorem printBlocks_roundtrip (home : Bytes) (rx : Pat → Bool) (bs : List PBlo
   have htot := (parseConfigFull_spec home [] rx (printBlocks bs)).1
   unfold parseConfig parseConfigFull at htot ⊢
   simp only [macrosOfDefs] at htot ⊢
-  have hs0 : Up ({ rest := printBlocks bs, macros := [] } : PState) (bs.flatMap blockToks) :=
+  have hs0 : Up ({ rest := printBlocks bs, macros := [] } : ParseSt) (bs.flatMap blockToks) :=
     Or.inl ⟨rfl, rfl, rfl, rfl, htoks⟩
   have := parseTop_rt { nl := countNl (printBlocks bs), home := home, rxOk := rx } hnl bs [] hall' hstd
     ((printBlocks bs).length + 1) _ hs0
